@@ -28,6 +28,9 @@ type (
 		wazeroVersion   string
 		fileCache       filecache.Cache
 		compiledModules map[wasm.ModuleID]*compiledModule
+		// compiledModuleRefs counts, per entry of compiledModules, the CompileModule calls that share it
+		// (runtimes sharing a compilation cache compile the same binary into one entry). Guarded by mux.
+		compiledModuleRefs map[wasm.ModuleID]int
 		// sortedCompiledModules is a list of compiled modules sorted by the initial address of the executable.
 		sortedCompiledModules []*compiledModule
 		mux                   sync.RWMutex
@@ -124,6 +127,7 @@ func (e *engine) CompileModule(ctx context.Context, module *wasm.Module, listene
 	}
 
 	if _, ok, err := e.getCompiledModule(module, listeners, ensureTermination); ok { // cache hit!
+		e.retainCompiledModule(module)
 		return nil
 	} else if err != nil {
 		return err
@@ -139,6 +143,7 @@ func (e *engine) CompileModule(ctx context.Context, module *wasm.Module, listene
 	if err = e.addCompiledModule(module, cm); err != nil {
 		return err
 	}
+	e.retainCompiledModule(module)
 
 	if wazevoapi.DeterministicCompilationVerifierEnabled {
 		for i := 0; i < wazevoapi.DeterministicCompilationVerifyingIter; i++ {
@@ -491,6 +496,7 @@ func (e *engine) Close() (err error) {
 	defer e.mux.Unlock()
 	e.sortedCompiledModules = nil
 	e.compiledModules = nil
+	e.compiledModuleRefs = nil
 	e.sharedFunctions = nil
 	return nil
 }
@@ -502,10 +508,26 @@ func (e *engine) CompiledModuleCount() uint32 {
 	return uint32(len(e.compiledModules))
 }
 
+// retainCompiledModule records one more user of the compiled module of the given module.
+func (e *engine) retainCompiledModule(m *wasm.Module) {
+	e.mux.Lock()
+	defer e.mux.Unlock()
+	if e.compiledModuleRefs == nil {
+		e.compiledModuleRefs = map[wasm.ModuleID]int{}
+	}
+	e.compiledModuleRefs[m.ID]++
+}
+
 // DeleteCompiledModule implements wasm.Engine.
 func (e *engine) DeleteCompiledModule(m *wasm.Module) {
 	e.mux.Lock()
 	defer e.mux.Unlock()
+	if n := e.compiledModuleRefs[m.ID]; n > 1 {
+		// Another CompiledModule (e.g. of a runtime sharing the compilation cache) still uses the entry.
+		e.compiledModuleRefs[m.ID] = n - 1
+		return
+	}
+	delete(e.compiledModuleRefs, m.ID)
 	cm, ok := e.compiledModules[m.ID]
 	if ok {
 		if len(cm.executable) > 0 {
